@@ -14,6 +14,7 @@ import (
 	"crypto/rsa"
 	"encoding/hex"
 	"fmt"
+	"strings"
 	"sync"
 
 	fdo "github.com/fido-device-onboard/go-fdo"
@@ -127,6 +128,9 @@ func collect(wire *lab.Wire, ow *lab.Server, rec *lab.Recorder, jl int) result {
 				if s1, err := rv.ParseSign1(it, true); err == nil {
 					if n := s1.UnprotectedGet(256); n != nil {
 						s.nonce = n.B
+						if k, w := fresh.Note("TO2.ProveOVHdr (nonce for ProveDevice)", n.B); k != "" {
+							r.Violation(k, w, nil)
+						}
 					}
 				}
 			}
@@ -225,6 +229,8 @@ func (e *env) refQ(s *session) (bool, string) {
 	return false, why
 }
 
+var fresh lab.Fresh
+
 func (e *env) judge(class, what string, res result, honestTok string) {
 	r.Evaluations.Add(1)
 	anyProved := false
@@ -232,6 +238,9 @@ func (e *env) judge(class, what string, res result, honestTok string) {
 		s := res.sessions[tok]
 		ok, why := e.refQ(s)
 		anyProved = anyProved || ok
+		if len(s.served) > 0 && strings.Contains(what, "genuine-64-of-another-session") {
+			r.Violation("served-on-replayed-proof:"+class, fmt.Sprintf("%s %s/%s %s (%s): owner answered %v to a ProveDevice recorded in another session", e.kind.Name, e.suite, e.cipher, class, what, s.served), map[string]any{"class": class, "what": what})
+		}
 		if len(s.served) > 0 && !ok {
 			var hx []string
 			for _, x := range s.reqs {
